@@ -13,9 +13,9 @@ RULE = (
     "empty and unknown-caption quantities: all arithmetic and comparison operators (valid and failing), "
     "GetValue(s)(unit), CreateCopy (all argument forms), ChangeScalars, IsValid/CheckValidity, str/repr/GetFormatted, "
     "copy/deepcopy/Copy, pickle (Scalar, FixedArray), ChangingIndex/IndexAsScalar, FromScalars, ConvertFractionValue, "
-    "UnitSystemManager.ConvertScalarToCurrent, number operands on both sides. Invariant after every step: a deep "
+    "UnitSystemManager.ConvertScalarToCurrent, number operands on both sides, sums whose operand was created directly on a derived quantity that writes two categories of one quantity type in different units. Invariant after every step: a deep "
     "snapshot of every pool member (class, value / container type, identity and contents, FractionValue number, "
-    "numerator, denominator, unit, category, quantity identity, dimension) and of every caller-owned container is "
+    "numerator, denominator, unit, category, quantity identity, the quantity's composing map, composing units and unit name, dimension) and of every caller-owned container is "
     "unchanged; arithmetic results are new objects; copy, deepcopy, CreateCopy(), pickle == original. Non-trivial = "
     "sequence with a step that converts units on an operand holding a caller-owned mutable container or a "
     "FractionValue; key = the sequence."
@@ -24,6 +24,14 @@ ASSUMPTIONS = ["the container returned by GetValues() is the caller's own object
 BUDGET_S = {"quick": 120, "thorough": 1200}
 N = {"quick": 600, "thorough": 5000}
 SHARDS = {"quick": 8, "thorough": 16}
+
+# two categories of one quantity type written in different units, and a third spelling for the other operand
+MIXED = [
+    (("length", "m"), ("depth", "cm"), ("length", "m")),
+    (("length", "km"), ("diameter", "in"), ("depth", "ft")),
+    (("volume", "m3"), ("liquid volume", "ft3"), ("gas volume", "m3")),
+    (("pressure", "Pa"), ("yield stress", "psi"), ("force per area", "bar")),
+]
 
 UNITS = [
     ("m", "length"), ("cm", "length"), ("km", "depth"), ("ft", "depth"), ("in", "diameter"), ("s", "time"), ("min", "time"),
@@ -167,6 +175,43 @@ class Machine:
             else:
                 self.add(FractionScalar.CreateWithQuantity(q, FractionValue(int(vals[0]), (1 + vi % 5, 2 + vi % 7))))
                 self.flags.add("fraction")
+        elif kind == "mixed_sum":
+            # an operand created directly on a derived quantity that writes two categories of one quantity type in
+            # different units (m.cm, m3/ft3): adding or subtracting a compatible amount has to match those units to
+            # each other - on copies, never inside the operand's (shared, cached) quantity
+            _, fam, e2, what, o, vi = op
+            from collections import OrderedDict
+
+            (c1, u1), (c2, u2), (c3, u3) = MIXED[fam % len(MIXED)]
+            e2 = [1, -1, 2][e2 % 3]
+            q = Quantity.CreateDerived(OrderedDict([(c1, [u1, 1]), (c2, [u2, e2])]))
+            vals = [VALUES[(vi + k) % len(VALUES)] for k in range(2)]
+            if what % 3 == 0:
+                a = Scalar.CreateWithQuantity(q, vals[0])
+                mk = lambda q_, v: Scalar.CreateWithQuantity(q_, v)
+            elif what % 3 == 1:
+                lst = list(vals)
+                a = Array.CreateWithQuantity(q, lst)
+                mk = lambda q_, v: Array.CreateWithQuantity(q_, [v, v])
+            else:
+                arr = numpy.array(vals, dtype=numpy.float64)
+                a = Array.CreateWithQuantity(q, arr)
+                mk = lambda q_, v: Array.CreateWithQuantity(q_, numpy.array([v, v]))
+            qb = Quantity.CreateDerived(OrderedDict([(c3, [u3, 1 + e2])])) if 1 + e2 != 0 else None
+            self.add(a)
+            if qb is None:
+                return
+            b = mk(qb, 1.0)
+            self.add(b)
+            self.invariant(("mixed_sum:created",) + tuple(op[1:]))
+            try:
+                r = [lambda: a + b, lambda: a - b, lambda: b + a, lambda: b - a][o % 4]()
+            except EXC as e:
+                ctx.cls("mixed_sum_rejected:" + type(e).__name__)
+                return
+            self.flags.add("converted")
+            ctx.cls("mixed_sum_done")
+            self.new_object(r, (a, b))
         elif kind == "new_empty":
             if op[1] % 2:
                 self.add(Scalar.CreateEmptyScalar(VALUES[op[2] % len(VALUES)]))
@@ -421,6 +466,7 @@ def op_strategy():
         new,
         new,
         st.tuples(st.just("new_empty"), i, i),
+        st.tuples(st.just("mixed_sum"), i, i, i, i, i),
         st.tuples(st.just("binop"), i, i, i),
         st.tuples(st.just("binop"), i, i, i),
         st.tuples(st.just("binop"), i, i, i),
